@@ -502,7 +502,9 @@ class Engine:
             p = V(PtrT(IntT(8)), I['ptr'])
             if is_sym(p):
                 r = s.table_load(st, p, t)
-                if r is None: return s.fork_ptr(st, fr, I, p)
+                if r is None:
+                    if os.environ.get('VERIF_DEBUG_PTR'): print('symbolic load pointer', str(p)[:300], 'in', ' <- '.join(f_.fn['name'][:70] for f_ in reversed(st.frames[-4:])), file=sys.stderr)
+                    return s.fork_ptr(st, fr, I, p)
                 fr.regs[d] = r
             else:
                 fr.regs[d] = s.load_typed(st, p, t)
@@ -1053,6 +1055,8 @@ def install_string_stubs(E):
         if A[0] != A[1]: s_set(E, st, A[0], s_bytes(E, st, A[1])); s_set(E, st, A[1], [])
         return A[0]
     S[PFX + 'aSEOS4_'] = move_assign
+    def copy_ctor(E, st, fr, I, A): E.mk_empty_string(E, st, A[0]); s_set(E, st, A[0], s_bytes(E, st, A[1])); return None
+    S[PFX + 'C2ERKS4_'] = copy_ctor; S[PFX + 'C1ERKS4_'] = copy_ctor
     def swap_s(E, st, fr, I, A):
         a = s_bytes(E, st, A[0]); b = s_bytes(E, st, A[1]); s_set(E, st, A[0], b); s_set(E, st, A[1], a); return None
     S[PFX + '4swapERS4_'] = swap_s
@@ -1087,7 +1091,7 @@ def install_string_stubs(E):
             if old in st.freed: raise Violation('memory', 'double free of string buffer')
             st.freed.add(old)
         return None
-    S[PFX + '10_M_disposeEv'] = dispose
+    S[PFX + '10_M_disposeEv'] = dispose; S[PFX + 'D2Ev'] = dispose; S[PFX + 'D1Ev'] = dispose          # out-of-line destructor = release of the heap buffer
     def construct_nc(E, st, fr, I, A):
         # _M_construct(size_type n, char c) on a string whose _M_p already points at the local buffer
         self, n, c = A
